@@ -246,6 +246,11 @@ def run(ctx: Ctx) -> int:
         raise MachineryError(f"vacuity: symbolic {n_sym}, closures {n_clo}")
     for s in scns[:2]:
         rep.sample({"content": s["c"], "jacobian_at_initial_state": s["pts"][0]["jac"]})
+    # code -> spec: shipped models and fractional variants of the family (fractional static coefficients, halved
+    # parameters) - their symbolic equations judged by the rational oracle
+    from . import model_oracle
+
+    model_oracle.run(ctx, rep, "C12", extra=model_oracle.fractional_variants(scns, 40 if ctx.quick else 300))
     return rep.finish()
 
 
